@@ -111,3 +111,70 @@ package config
 //@   ensures [webhook]  result0.Webhook != nil && fresh(result0.Webhook) && result0.Webhook.MutatingWebhook != nil && result0.Webhook.MutatingWebhook.Name == cfgV1.Name && result0.Webhook.MutatingWebhook.Rules == cfgV1.Rules
 //@   ensures [timeout]  result0.Webhook.MutatingWebhook.TimeoutSeconds != nil && (cfgV1.TimeoutSeconds == nil ==> *result0.Webhook.MutatingWebhook.TimeoutSeconds == 10)
 //@   ensures [failure-policy] result0.Webhook.MutatingWebhook.FailurePolicy != nil && (cfgV1.FailurePolicy == nil ==> *result0.Webhook.MutatingWebhook.FailurePolicy == v1.Fail)
+
+// ---- C10: assembly of the effective configuration (v1) ----------------------------------------
+//@ trusted func (*HookConfigV1).CheckOnKubernetesEvent
+//@   modifies nothing
+//@ trusted func (*HookConfigV1).CheckAdmission
+//@   modifies nothing
+//@ trusted func (*HookConfigV1).ConvertConversion
+//@   modifies nothing
+//@ trusted func (*HookConfig).ConvertOnStartup
+//@   modifies nothing
+//@ trusted func MonitorDebugName
+//@   modifies nothing
+//@ trusted func MonitorConfigID
+//@   modifies nothing
+//@ package github.com/flant/shell-operator/pkg/webhook/validating/validation
+//@ trusted func ValidateValidatingWebhooks
+//@   modifies nothing
+//@ package github.com/flant/shell-operator/pkg/hook/config
+
+// the effective kubernetes binding `out` is the declared one `in` with the documented defaults
+//@ pred K8sOK(out htypes.OnKubernetesEventConfig, in OnKubernetesEventConfigV1) := out.BindingName == ite(in.Name == "", "kubernetes", in.Name)
+//@     && out.Queue == ite(in.Queue == "", "main", in.Queue) && out.AllowFailure == in.AllowFailure && out.Group == in.Group
+//@     && out.ExecuteHookOnSynchronization == (in.ExecuteHookOnSynchronization != "false")
+//@     && out.KeepFullObjectsInMemory == (in.KeepFullObjectsInMemory != "false")
+//@     && out.WaitForSynchronization == !(in.WaitForSynchronization == "false" && in.Queue != "")
+//@     && out.Monitor != nil && out.Monitor.KeepFullObjectsInMemory == out.KeepFullObjectsInMemory
+//@     && out.Monitor.Kind == in.Kind && out.Monitor.ApiVersion == in.ApiVersion && out.Monitor.JqFilter == in.JqFilter
+
+//@ pred K8sAll(outs []htypes.OnKubernetesEventConfig, ins []OnKubernetesEventConfigV1) := len(outs) == len(ins) && forall(i, 0, len(outs), K8sOK(outs[i], ins[i]))
+
+// C10: a valid v1 document yields one effective kubernetes binding per declared one, in the
+// declared order, with the documented defaults.
+//@ func (*HookConfigV1).ConvertAndCheck
+//@   prop C10
+//@   requires cv1 != nil && c != nil && c.V1 == cv1
+//@   modifies fields(c), allelems(htypes.OnKubernetesEventConfig), allelems(htypes.ScheduleConfig), allelems(htypes.ValidatingConfig), allelems(htypes.MutatingConfig), allelems(htypes.ConversionConfig), allelems(string), allelems(v1.ValidatingWebhook)
+//@   ensures [kubernetes/count]    result == nil ==> len(c.OnKubernetesEvents) == len(cv1.OnKubernetesEvent)
+//@   ensures [kubernetes/defaults] result == nil ==> forall(i, 0, len(c.OnKubernetesEvents), K8sOK(c.OnKubernetesEvents[i], cv1.OnKubernetesEvent[i]))
+//@   loop 1
+//@     invariant 0 <= iter() && iter() <= len(cv1.OnKubernetesEvent) && len(c.OnKubernetesEvents) == iter()
+//@     invariant forall(i, 0, iter(), K8sOK(c.OnKubernetesEvents[i], cv1.OnKubernetesEvent[i]))
+//@   loop 2
+//@     invariant [k8s] K8sAll(c.OnKubernetesEvents, cv1.OnKubernetesEvent)
+//@   loop 3
+//@     invariant [k8s] K8sAll(c.OnKubernetesEvents, cv1.OnKubernetesEvent)
+//@   loop 4
+//@     invariant [k8s] K8sAll(c.OnKubernetesEvents, cv1.OnKubernetesEvent)
+//@   loop 5
+//@     invariant [k8s] K8sAll(c.OnKubernetesEvents, cv1.OnKubernetesEvent)
+//@   loop 6
+//@     invariant [k8s] K8sAll(c.OnKubernetesEvents, cv1.OnKubernetesEvent)
+//@   loop 7
+//@     invariant [k8s] K8sAll(c.OnKubernetesEvents, cv1.OnKubernetesEvent)
+//@   loop 8
+//@     invariant [k8s] K8sAll(c.OnKubernetesEvents, cv1.OnKubernetesEvent)
+//@   loop 9
+//@     invariant [k8s] K8sAll(c.OnKubernetesEvents, cv1.OnKubernetesEvent)
+//@     invariant 0 <= iter() && iter() <= len(c.OnKubernetesEvents) && len(newKubeEvents) == iter() && fresh(newKubeEvents) && base(newKubeEvents) != base(c.OnKubernetesEvents)
+//@     invariant forall(i, 0, iter(), K8sOK(newKubeEvents[i], cv1.OnKubernetesEvent[i]))
+//@   loop 10
+//@     invariant [k8s] K8sAll(c.OnKubernetesEvents, cv1.OnKubernetesEvent)
+//@   loop 11
+//@     invariant [k8s] K8sAll(c.OnKubernetesEvents, cv1.OnKubernetesEvent)
+//@   loop 12
+//@     invariant [k8s] K8sAll(c.OnKubernetesEvents, cv1.OnKubernetesEvent)
+//@   loop 13
+//@     invariant [k8s] K8sAll(c.OnKubernetesEvents, cv1.OnKubernetesEvent)
